@@ -614,6 +614,20 @@ def run(case):
             cmp(f"uniform/then-{vlab}/dV", "uniform region re-evaluated on a graded mesh (flag not repeated) vs a general region on that mesh: dV", rv.dV, rfull.dV, 1e-13)
             cmp(f"uniform/then-{vlab}/dhdX", "uniform region re-evaluated on a graded mesh (flag not repeated) vs a general region on that mesh: dhdX", rv.dhdX, rfull.dhdX, 1e-12)
 
+    # ---- the same cells in other length units: second derivatives of the shape functions scale with 1 / s^2 (also on distorted
+    #      and curved cells, whose geometric curvature scales with s and may be far below one in absolute terms)
+    if has_hess and hasattr(region, "d2hdXdX") and not kind.startswith("lagrange"):
+        import felupe as fem_u
+
+        for sc_ in (1e-3, 1e-6, 1e-9, 1e3):
+            ms_ = fem_u.Mesh(np.asarray(region.mesh.points, float) * sc_, region.mesh.cells, region.mesh.cell_type)
+            with warnings.catch_warnings():
+                warnings.simplefilter("ignore")
+                rs_ = type(region)(ms_, **_rk(kind, has_hess=True))
+            cnt["trans"] += 1
+            cmp(f"length-units/s={sc_}/d2hdXdX", "second derivatives of the shape functions on the mesh scaled by s = 1 / s^2 x those of the mesh", np.asarray(rs_.d2hdXdX) * sc_**2, np.asarray(region.d2hdXdX), 1e-9)
+            cmp(f"length-units/s={sc_}/dhdX", "first derivatives of the shape functions on the mesh scaled by s = 1 / s x those of the mesh", np.asarray(rs_.dhdX) * sc_, np.asarray(region.dhdX), 1e-10)
+
     # ---- float32 copy
     r32 = region.astype(np.float32)
     cnt["trans"] += 1
